@@ -20,6 +20,8 @@ import time
 VERIF = os.path.abspath(os.path.join(os.path.dirname(os.path.abspath(__file__)), ".."))
 REPO = os.environ.get("VERIF_REPO", "/repo")
 SCRATCH = os.environ.get("VERIF_SCRATCH", "/var/tmp/rsverif")
+EVIDENCE_DIR = os.environ.get("VERIF_EVIDENCE_DIR", os.path.join(VERIF, "evidence"))
+REPLAYS_DIR = os.environ.get("VERIF_REPLAYS_DIR", os.path.join(VERIF, "replays"))
 HARNESS_DIR = os.path.join(VERIF, "kani", "harness")
 SHIMS_DIR = os.path.join(VERIF, "kani", "shims")
 JOBS = int(os.environ.get("VERIF_JOBS", "12"))
@@ -423,8 +425,8 @@ def replay(stage_dir, h, spec, prop, log_dir):
     marker = "\n// ---- playback tests appended by /verif/bin/check ----\n"
     if fn not in src:
         open(modfile, "w").write(src + marker + chosen + "\n")
-    os.makedirs(os.path.join(VERIF, "replays"), exist_ok=True)
-    rp = os.path.join(VERIF, "replays", "%s-%s-%s.rs" % (prop, name.replace("::", "__").replace("@", ""), h))
+    os.makedirs(REPLAYS_DIR, exist_ok=True)
+    rp = os.path.join(REPLAYS_DIR, "%s-%s-%s.rs" % (prop, name.replace("::", "__").replace("@", ""), h))
     outcomes = {}
     with Slot() as tgt:
         for profile in ("dev",):  # cargo-kani 0.68 playback has no --release
@@ -499,7 +501,7 @@ def decide(prop, tier, seed):
         specs += list(C.CHECKS[prop].get("thorough", []))
     h = source_hash()
     st = stage(h)
-    log_dir = os.path.join(SCRATCH, "logs", prop)
+    log_dir = os.path.join(SCRATCH, "logs" + os.environ.get("VERIF_LOG_SUFFIX", ""), prop)
     shutil.rmtree(log_dir, ignore_errors=True)
     os.makedirs(log_dir, exist_ok=True)
     known = load_known()
@@ -680,8 +682,8 @@ def write_evidence(prop, tier, seed, specs, results, wall, nviol, known_hits, no
         "wall_s": round(wall, 2),
         "violations": nviol,
     }
-    os.makedirs(os.path.join(VERIF, "evidence"), exist_ok=True)
-    json.dump(ev, open(os.path.join(VERIF, "evidence", prop + ".json"), "w"), indent=1)
+    os.makedirs(EVIDENCE_DIR, exist_ok=True)
+    json.dump(ev, open(os.path.join(EVIDENCE_DIR, prop + ".json"), "w"), indent=1)
 
 
 def main(argv):
